@@ -35,7 +35,9 @@ Proof.
     split; [left; split; [reflexivity|]; split; [reflexivity|]; apply Forall_cons; [cbn; discriminate| apply Forall_nil]| reflexivity]|].
   apply Forall_cons; [split; [reflexivity| apply Forall_nil]| apply Forall_nil].
 Qed.
-Definition sel_mixed : selr := of_mixed (cz 97) [] [seg_b; seg_c; seg_0] eq_refl (Forall_nil _) segs_ok ltac:(cbn; discriminate).
+Lemma segs_ne : [seg_b; seg_c; seg_0] <> [].
+Proof. discriminate. Qed.
+Definition sel_mixed : selr := of_mixed (cz 97) [] [seg_b; seg_c; seg_0] eq_refl (Forall_nil _) segs_ok (or_intror segs_ne).
 
 Definition ps_de : list pseg := [(cz 100, []); (cz 101, [])].
 Lemma ps_ok : Forall pseg_ok ps_de.
